@@ -46,7 +46,7 @@ structure Obs where
 
 /-- C29-F9: (function, fragment of the panic message) pairs of out-of-domain arguments that panic in library code -/
 def domainPairs : List (String × String) :=
-  [("FROM_BASE", "radix must lie in the range"), ("INVERSE_NORMAL_CDF", "x must be in"), ("INVERSE_BETA_CDF", "x must be in"),
+  [("INVERSE_NORMAL_CDF", "x must be in"), ("INVERSE_BETA_CDF", "x must be in"),
    ("FORMAT_NUMBER", "Formatting argument out of range"), ("DATE_FORMAT", "Display implementation returned an error")]
 
 /-- signatures of the listed findings (known_findings.json, property C29) -/
@@ -58,12 +58,10 @@ def attributeTo (o : Obs) : Option String :=
      && (o.neutral == "ok" || o.neutral == "err") then some "C29-F1"
   else if o.outcome == "abort" && o.kind == "stack-overflow" && chainOps up ≥ 2000 then some "C29-F2"
   else if o.outcome == "timeout" && o.phase == "parse" && maxDepth o.sql ≥ 41 && (contains up "CAST(" || contains up "ARRAY[") then some "C29-F3"
-  else if o.outcome == "panic" && contains o.kind "hash_join.rs" && contains o.detail "index out of bounds"
-     && (contains up "JOIN" || contains up " IN (" || contains up "INTERSECT" || contains up "EXCEPT" || contains up "EXISTS") then some "C29-F5"
   else if o.outcome == "panic" && (contains o.kind "physical::operators::filter::" || contains o.kind "physical::operators::hash_agg")
-     && o.detail.startsWith "attempt to " && contains o.detail "with overflow" then some "C29-F8"
+     && o.detail.startsWith "attempt to " && contains o.detail "with overflow"
+     && ((contains up "FROM_UNIXTIME(" && contains o.detail "multiply") || (contains up "SUM(" && contains o.detail "add")) then some "C29-F8"
   else if o.outcome == "panic" && domainPairs.any (fun (f, m) => contains up (f ++ "(") && contains o.detail m) then some "C29-F9"
-  else if o.outcome == "panic" && contains o.detail "TimeDelta" && contains up "DATE_ADD" then some "C29-F10"
   else if ((o.outcome == "abort" && o.kind == "alloc-failure") || (o.outcome == "timeout" && o.phase == "execute")
            || (o.outcome == "panic" && contains o.detail "capacity overflow"))
      && (contains up "REPEAT(" || contains up "LPAD(" || contains up "RPAD(") then some "C29-F11"
